@@ -668,6 +668,7 @@ func checkC20(c *Ctx, r *Report) {
 	}
 	checkInfoCopied(c, r, "C20.d", "generator/swagen/swagen30.GenerateSpec", "generator/swagen/swagen31.GenerateSpec")
 	checkInfoSectionsIndependent(c, r, "C20.d", "generator/swagen/swagen30.GenerateSpec", "generator/swagen/swagen31.GenerateSpec")
+	checkNoDroppedParameters(c, r, "C20.d")
 	for _, e := range emitters {
 		checkSecuritySchemes(c, r, "C20.d", e.Ver, e.Pkg)
 	}
